@@ -457,7 +457,7 @@ func c09ModelJSON(ctx *Ctx, req J) (string, error) {
 }
 
 func runC09(ctx *Ctx) error {
-	ctx.Res.Rule = "seeded unions (oneOf/anyOf of 1-4 referenced objects incl. names needing normalisation, plus primitive/array/inline members; discriminator none/implicit/explicit/partial/many-to-one; the union's own fixed properties incl. one named like the discriminator; additionalProperties (a fixed member never shows among the additional ones); nested in a property, an array and a map) compiled; every From/As/Merge/Discriminator/ValueByDiscriminator of every union type called through reflection on sample member values; CORR: the case table of ValueByDiscriminator and the values assigned by From* (AST) vs the Lean table; non-trivial = every (union, member) pair"
+	ctx.Res.Rule = "seeded unions (oneOf/anyOf of 1-4 referenced objects incl. names needing normalisation, plus primitive/array/inline members; discriminator none/implicit/explicit/partial/many-to-one; the union's own fixed properties incl. one named like the discriminator; additionalProperties (a fixed member never shows among the additional ones); nested in a property, an array and a map) compiled; every From/As/Merge/Discriminator/ValueByDiscriminator of every union type called through reflection on sample member values; CORR: the case table of ValueByDiscriminator and the values assigned by From* (AST) vs the Lean table; non-trivial = every (union, member) pair Session 9: CORR of MarshalJSON after From and of decode/encode with Model/UnionJson.lean (with and without additional properties); a required nullable member of the union itself; an inline union with explicit mapping inherited through allOf; integers beyond 2^53 compared digit for digit."
 	kit, err := NewRunKit(ctx.Work)
 	if err != nil {
 		return err
